@@ -313,6 +313,7 @@ def oracle_grid_oracle(c, o):
 # =================================================================================================
 # SliceProjectionOp
 # =================================================================================================
+STATS = {'axis_pixels_decided': 0, 'axis_pixels_decided_irrational': 0, 'slice_rows_compared': 0, 'slice_rows_skipped_float_degenerate': 0, 'slice_rows_nan_expected': 0}
 PRE_SLICE = 'From MrVerif Require Import Base.Prelude Model.SliceProj.\nFrom Coq Require Import QArith.'
 F = Fraction
 
@@ -617,8 +618,11 @@ def cmp_slice(c, o, m, stats=None):
             got = o['rows'][k]
             k += 1
             if deg and not exact_cls:
+                STATS['slice_rows_skipped_float_degenerate'] += 1
                 continue  # float evaluation may sit on the other side of a discontinuity
+            STATS['slice_rows_compared'] += 1
             if mnpos == 0:
+                STATS['slice_rows_nan_expected'] += 1
                 if not got.get('nan'):
                     return f'row {k - 1}: model divides 0/0 (no positive candidate), impl row is finite'
                 continue
@@ -673,6 +677,8 @@ def gen_axis(rng, tier):
             prof = {'kind': 'gauss', 'fwhm': [rng.choice([2, 3, 4, 6, 8]), rng.choice([1, 2])]}
         else:
             prof = {'kind': 'smoothed', 'fwhm': [rng.choice([2, 3, 4, 6]), 1], 'fg': [rng.choice([1, 2, 3]), 2]}
+        if prof['kind'] in ('gauss', 'smoothed'):  # long enough along the normal to hold the whole candidate window
+            shape = rng.choice([[13, 4, 4], [15, 3, 5], [14, 4, 3]]) if cls == 'identity' else rng.choice([[11, 11, 11], [13, 13, 13], [12, 12, 12]])
         cases.append({'shape': shape, 'cls': cls, 'M': _mat_json(M), 'shift': [shift.numerator, shift.denominator], 'prof': prof,
                       'seed': rng.randrange(10 ** 6)})
     return cases
@@ -717,6 +723,7 @@ def _axis_reference(c):
     a = [i for i in range(3) if normal[i] != 0][0]
     sgn = normal[a]
     exact = c['prof']['kind'] in ('rect', 'smoothed0')
+    wmax = twin_find_width(mx, prof)
     refs = []
     for r in range(mx):
         for cc in range(mx):
@@ -733,7 +740,9 @@ def _axis_reference(c):
             # the line of voxels through the in-plane position; d_z = sgn * (pr_a - j)
             for j in range(-40, shape[a] + 40):
                 wgt = prof(sgn * (pr[a] - j))
-                significant = (wgt > 0) if exact else (wgt > 1e-4)
+                # exact profiles: any positive weight outside the volume makes the pixel undecided; Gaussian-like profiles are
+                # positive everywhere: every voxel position the implementation can consider (|distance| <= width + 2) must be inside
+                significant = (wgt > 0) if exact else (abs(pr[a] - j) <= wmax + 2)
                 if 0 <= j < shape[a]:
                     pt = [int(pr[0]) if a != 0 else 0, int(pr[1]) if a != 1 else 0, int(pr[2]) if a != 2 else 0]
                     pt[a] = j
@@ -766,6 +775,9 @@ def oracle_axis(c, o):
                 tot = sum(wt for _, wt in ref)
                 want = sum(wt * float(v[pt]) for pt, wt in ref) / tot
             decided += 1
+            STATS['axis_pixels_decided'] += 1
+            if not exact:
+                STATS['axis_pixels_decided_irrational'] += 1
             if not (abs(got - want) <= tol * scale):
                 mx = max(c['shape'])
                 ntaps = len(ref) if isinstance(ref, list) else 0
@@ -823,16 +835,22 @@ def _descr_slice(c):
     return d
 
 
+def extra_checks(ctx):
+    ctx.extra.setdefault('coverage', {}).update(STATS)
+    ctx.notes.append(f'slice_matrix rows compared with the Coq model: {STATS["slice_rows_compared"]}, skipped because the exact '
+                     f'coordinates sit on a discontinuity under an inexact rotation matrix: {STATS["slice_rows_skipped_float_degenerate"]}')
+
+
 FAMILIES = [
     Family('slice_matrix', gen_slice, impl_slice, coq_slice, PRE_SLICE, cmp_slice, oracle_slice,
-           nontrivial=lambda c: True, descr=_descr_slice, shard=2, theorem='C20_slice_*'),
+           nontrivial=lambda c: True, descr=_descr_slice, shard=2, theorem='C20_slice_nonneg, C20_slice_duplicates, C20_slice_rowsum(_inside), C20_slice_identity_is_weighted_slicing_partial, C20_slice_rect_taps_partial, C20_find_width_rect_partial'),
     Family('slice_axis_aligned', gen_axis, impl_axis, None, '', None, oracle_axis, descr=_descr_slice,
            theorem='C20_slice_identity_is_weighted_slicing (implementation-level reference in python)'),
     Family('slice_irrational_profiles', gen_gauss, impl_gauss, None, '', None, oracle_gauss, descr=_descr_slice,
            theorem='(float twin of Model/SliceProj.v)'),
     Family('grid_sampling', gen_grid, impl_grid, coq_grid, PRE_GRID, cmp_grid, oracle_grid, nontrivial=_nontrivial_grid,
            descr=lambda c: {k: c[k] for k in ('dim', 'mode', 'pad', 'ac', 'cplx', 'gb', 'xb', 'chans', 'shape')},
-           shard=12, theorem='C20_grid_*'),
+           shard=12, theorem='C20_grid_weights, C20_grid_on_pixel(_3d), C20_grid_identity(_3d), C20_grid_linear(_3d), C20_grid_complex_alike, C20_grid_border, C20_grid_adjoint(_3d)'),
     Family('grid_sampling_oracles', gen_grid_oracle, impl_grid_oracle, None, '', None, oracle_grid_oracle,
            theorem='(implementation-level: identity grid, re/im alike, adjointness for all modes incl. bicubic/reflection)'),
 ]
